@@ -200,7 +200,7 @@ def main(tier, seed):
             rev = {v: k2 for k2, v in ids.items()}
             for part in mo.strip().split(" ; "):
                 f = part.split("|")
-                if len(f) != 4:
+                if len(f) < 4:
                     res.violation("drv_c18 output unreadable: %s" % part[:100], {}, found_input=False)
                     break
                 en = rev[int(f[0])]
